@@ -1379,3 +1379,63 @@ func VerifCallGraph(n int) {
 	verifapi.Classify("C24/caller-entry-does-not-name-the-call-row/" + site.name)
 	verifapi.Assert(verifHasLine(out, "    - call point: ./a.rb:"+verifItoa(callRow), ""), "C24-row")
 }
+
+// ---- C27: same-named classes in different namespaces ----
+
+// VerifNamespaces: a class group (Aa, Bb < Aa, optional Cc < Bb, an included module) analysed
+// (T) at top level, (W) wrapped in `module Mm` with outside references qualified, (D) wrapped
+// and next to a top-level decoy class with the same short name as the group's superclass but
+// different methods. Outputs must agree apart from rows and the Mm:: qualification.
+func VerifNamespaces(n int) {
+	variant := verifapi.Concrete(verifapi.Int("variant", 0, 3))
+	depth := verifapi.Concrete(verifapi.Int("depth", 2, 3))
+	s := verifInstallSym("a")
+	verifapi.WitnessList("Sym.a", verifKN(s.ka))
+	group := "class Aa\ndef foo\nSym.a\nend\ndef self.make\n1\nend\nend\nclass Bb < Aa\ndef bar\nfoo\nend\nend\n"
+	last := "Bb"
+	if depth == 3 {
+		group += "class Cc < Bb\nend\n"
+		last = "Cc"
+	}
+	refs := func(q string) string {
+		return "dbtp " + q + last + ".new.foo\ndbtp " + q + last + ".new.bar\ndbtp " + q + last + ".make\n" + q + last + ".new.nope\n"
+	}
+	top := group + refs("")
+	wrapped := "module Mm\n" + group + "end\n" + refs("Mm::")
+	decoy := "class Aa\ndef foo\n\"decoy\"\nend\ndef other\n2\nend\nend\n"
+	decoyAfter := "class Bb\ndef bar\n\"decoy\"\nend\nend\n"
+	glines := verifCountLines(group)
+	var a, b string
+	var name string
+	var at, delta int
+	switch variant {
+	case 0: // top-level vs wrapped: wrapping adds `module Mm` before row 1 and `end` after the group
+		a, b, name = top, wrapped, "wrapping-in-module-changes-analysis"
+	case 1: // wrapped vs wrapped + decoy superclass namesake defined before
+		a, b, name = wrapped, decoy+wrapped, "top-level-namesake-of-superclass-before"
+		at, delta = 1, verifCountLines(decoy)
+	case 2: // wrapped vs wrapped + decoy namesake of the subclass defined after the module
+		a, b, name = wrapped, "module Mm\n"+group+"end\n"+decoyAfter+refs("Mm::"), "top-level-namesake-of-subclass-after"
+		at, delta = glines+3, verifCountLines(decoyAfter)
+	case 3: // top-level group vs the same with a namesake inside an unrelated module
+		other := "module Zz\nclass Aa\ndef foo\n\"decoy\"\nend\nend\nend\n"
+		a, b, name = top, other+top, "namesake-inside-unrelated-module-before"
+		at, delta = 1, verifCountLines(other)
+	}
+	outA, outB := verifRunTwo(a, b)
+	verifapi.Reach("ran")
+	verifapi.Witness("srcA", a)
+	verifapi.Witness("srcB", b)
+	verifapi.Witness("C27.variant", verifItoa(variant))
+	verifapi.Witness("C27.glines", verifItoa(glines))
+	verifapi.Witness("C27-ns.at", verifItoa(at))
+	verifapi.Witness("C27-ns.delta", verifItoa(delta))
+	verifapi.Classify("C27/" + name + "/depth" + verifItoa(depth))
+	if variant == 0 {
+		// B's rows: +1 for `module Mm`, and +1 more after the group for the module's `end`
+		nb := verifDropShift(verifDropShift(strings.ReplaceAll(outB, "Mm::", ""), glines+2, 1), 1, 1)
+		verifapi.Assert(nb == outA, "C27-ns")
+		return
+	}
+	verifapi.Assert(verifDropShift(outB, at, delta) == outA, "C27-ns")
+}
